@@ -524,7 +524,7 @@ impl Check for C20Check {
         "C20"
     }
     fn n_cases(&self, ctx: &Ctx) -> u64 {
-        N_FIXED + ctx.tier.sel(3_000, 40_000)
+        N_FIXED + ctx.tier.sel(5_000, 40_000)
     }
     fn describe(&self, ctx: &Ctx, idx: u64) -> Value {
         let (d, _) = case_dict(ctx, idx);
@@ -747,7 +747,7 @@ impl Check for C20Check {
         out
     }
     fn rule(&self) -> String {
-        "case = one dictionary (24 fixed ones that are the same for every seed: the guide's / the tests' samples and the known-finding witnesses; then generated: 2-4 top-level chords of 2-4 keys over a-h, chords extending other chords by one key up to three levels with and without a shared output prefix, follow-up chords of 1-3 keys up to depth 3 incl. keys that occur in no top-level chord, nodes with empty output, upper/lower-case outputs with inner and trailing spaces) x one smart-space setting (idx mod 3) x deadline 30/500. Every entry is typed with every permutation of its last chord's keys (capped at 24 quick / 120 thorough; earlier chords in random order), gaps 1-3 ms, without modifier and with lsft / rsft / ralt held, followed by nothing / a foreign letter / a dot / both; then 4-8 random non-chord typings (taps, rolled pairs that are no subset of a chord, shift, punctuation, pauses) and one too-slow chord. Non-trivial = entry scenario replayed through the text-buffer model; distinct = (shape, depth, chord size, modifier, tail, smart-space).".into()
+        "case = one dictionary (33 cases with fixed dictionaries that are the same for every seed: the guide's / the tests' samples and the known-finding witnesses; then generated: 2-4 top-level chords of 2-4 keys over a-h, chords extending other chords by one key up to three levels with and without a shared output prefix, follow-up chords of 1-3 keys up to depth 3 incl. keys that occur in no top-level chord, nodes with empty output, upper/lower-case outputs with inner and trailing spaces) x one smart-space setting (idx mod 3) x deadline 30/500. Every entry is typed with every permutation of its last chord's keys (capped at 24 quick / 120 thorough; earlier chords in random order), gaps 1-3 ms, without modifier and with lsft / rsft / ralt held, followed by nothing / a foreign letter / a dot / both; then 4-8 random non-chord typings (taps, rolled pairs that are no subset of a chord, shift, punctuation, pauses) and one too-slow chord. Non-trivial = entry scenario replayed through the text-buffer model; distinct = (shape, depth, chord size, modifier, tail, smart-space).".into()
     }
     fn assumptions(&self) -> Vec<String> {
         vec![
